@@ -254,8 +254,9 @@ Definition dc_link (s : st) (a b : ent) : st :=
   let s0 := bump (set_heap s (hset l [(KA, VU (uid pa)); (KB, VU (uid pb))] (heap s))) in
   let '(_, s1) := dc_md s0 a in
   let s2 := dc_assign s1 (refresh s1 a) l in
-  let '(_, s3) := dc_md s2 (refresh s2 b) in
-  dc_assign s3 (refresh s3 b) l.
+  let b2 := refresh s2 b in
+  let '(_, s3) := dc_md s2 b2 in
+  dc_assign s3 (refresh s3 b2) l.
 
 (* entity.metadata = {k: z} on an electrode *)
 Definition dc_edit (s : st) (e : ent) (k : nat) (z : Z) : res st :=
